@@ -672,6 +672,9 @@ func restoreAttributeValue(attr string, stored []byte) (string, error) {
 	case object.FilterPayloadChecksum:
 		return hex.EncodeToString(stored), nil
 	case object.FilterSplitID:
+		if len(stored) == 0 {
+			return "", nil // missing attribute
+		}
 		uid, err := uuid.FromBytes(stored)
 		if err != nil {
 			return "", invalidMetaBucketKeyErr([]byte{metaPrefixAttrIDPlain}, fmt.Errorf("decode split ID: decode UUID: %w", err))
